@@ -8,6 +8,7 @@
 package conn
 
 import (
+	"bytes"
 	"encoding/json"
 	"errors"
 	"flag"
@@ -366,7 +367,30 @@ func ackPosition(c *caseSpec, can []cursor, m *ext.Minter) string {
 
 var feeShapes = []string{"0", "1", "5", "-1", "-0", "+3", "", "abc", "1.5", "1e3", "0x10", " 7", "99999999999999999999999999999999999999999999999999999999999999999999999999999999"}
 
+// genPayload dresses a generated command in the white space a wallet or a pretty-printing client may put around and
+// inside the JSON text: the document is the same, so every part of the connector has to read it the same way.
 func genPayload(r *rand.Rand, amount *big.Int, wellFormedBias bool) string {
+	s := genPayloadRaw(r, amount, wellFormedBias)
+	if !strings.HasPrefix(s, "{") || r.Intn(10) != 0 {
+		return s
+	}
+	switch r.Intn(4) {
+	case 0:
+		return []string{"\n", " ", "\t", "\r\n  "}[r.Intn(4)] + s
+	case 1:
+		return s + []string{"\n", " ", "\r\n"}[r.Intn(3)]
+	case 2:
+		return " " + strings.Replace(strings.Replace(s, "{", "{ ", 1), "\":\"", "\" : \"", -1) + "\n"
+	default:
+		var buf bytes.Buffer
+		if json.Indent(&buf, []byte(s), "", "  ") != nil {
+			return s
+		}
+		return "\n" + buf.String()
+	}
+}
+
+func genPayloadRaw(r *rand.Rand, amount *big.Int, wellFormedBias bool) string {
 	types := []string{"send_to_hub", "send_to_ethereum", "send_to_bsc", "send_to_minter", "", "SEND_TO_HUB"}
 	typ := types[r.Intn(3)]
 	if !wellFormedBias && r.Intn(4) == 0 {
